@@ -139,6 +139,16 @@ class NetExec:
         ids = []
         for ch in item[1:]:
             ids.append(ch.id)
+            old = self.h[side].get(ch.id)
+            if old is not None and old is not ch:
+                # the id was re-created (the old object was closed and forgotten before this item arrived): two objects
+                # for one id — park the old one, the conversation is outside the per-conversation oracles
+                if not hasattr(self, "graveyard"):
+                    self.graveyard = []
+                self.graveyard.append(old)
+                if hasattr(self, "aliased"):
+                    self.aliased.add((side, ch.id))
+            del old
             self.h[side][ch.id] = ch
             self.note_ever(side, ch.id)
         return "%d:%s" % (val, ",".join(map(str, ids)) if ids else "-")
@@ -273,6 +283,16 @@ class NetExec:
                 ch.waitclose(timeout=0.01)
                 return "ok"
             if k == "setcb":
+                # channel objects inside already queued items: the harness takes a reference first, so that an item the
+                # replay loses (a callback raising in setcallback discards the rest of the detached queue) does not
+                # finalise them behind the model's back ("last reference dropped" is an explicit operation here)
+                q0 = getattr(ch, "_items", None)
+                for x in list(getattr(q0, "items", ())) if q0 is not None else ():
+                    if isinstance(x, tuple):
+                        for c0 in x[1:]:
+                            if hasattr(c0, "id") and self.h[side].get(c0.id) is None:
+                                self.h[side][c0.id] = c0
+                                self.note_ever(side, c0.id)
                 cb = self.callback_for(side, cid)
                 if t[3] == "1":
                     ch.setcallback(cb, endmarker=self.END)
